@@ -248,19 +248,22 @@ def _delegate_ok(wnode, core_name, is_method):
                 else None)
             if nm == core_name:
                 calls.append(n)
-    if len(calls) != 1:
+    if not calls:
         return False
-    c = calls[0]
-    passed = [x.id if isinstance(x, ast.Name) else None for x in c.args] + \
-        [k.value.id if isinstance(k.value, ast.Name) and
-         k.arg == k.value.id else None for k in c.keywords]
-    if passed != call_params:
-        return False
+    for c in calls:
+        passed = [x.id if isinstance(x, ast.Name) else None
+                  for x in c.args] + \
+            [k.value.id if isinstance(k.value, ast.Name) and
+             k.arg == k.value.id else None for k in c.keywords]
+        if passed != call_params:
+            return False
+    local_names = {n.id for n in ast.walk(wnode)
+                   if isinstance(n, ast.Name) and isinstance(n.ctx, ast.Store)}
     # names that hold (a conversion of) the result
     holds = set()
 
     def derived(e):
-        if e is c:
+        if any(e is c for c in calls):
             return True
         if isinstance(e, ast.Name) and e.id in holds:
             return True
@@ -303,10 +306,15 @@ def _delegate_ok(wnode, core_name, is_method):
             outs += 1
         if isinstance(n, (ast.Raise, ast.While, ast.Global, ast.Nonlocal)):
             return False
-        if isinstance(n, ast.Call) and n is not c:
+        if isinstance(n, ast.Call) and not any(n is c for c in calls):
             f = n.func
             ok = (isinstance(f, ast.Name) and
-                  f.id in ('tuple', 'list', 'iter', 'len')) or (
+                  f.id in ('tuple', 'list', 'iter', 'len', 'type',
+                           'isinstance')) or (
+                # collecting what was produced in a LOCAL list
+                isinstance(f, ast.Attribute) and f.attr == 'append' and
+                isinstance(f.value, ast.Name) and
+                f.value.id in local_names and f.value.id[:1] != '_') or (
                 isinstance(f, ast.Attribute) and
                 isinstance(f.value, ast.Name) and f.value.id[:1] == '_' and
                 f.attr in ('get', 'setdefault', 'add', 'pop', 'popitem',
